@@ -555,7 +555,10 @@ func init() {
 	})
 	// ---- bip39
 	add("bip39.GenerateEntropy", func(c *memCtx) {
-		c.call(false, func() []interface{} { b, e := bip39.GenerateEntropy(bip39.Entropy(128 + 32*c.r.intn(5))); return []interface{}{b, e} })
+		c.call(false, func() []interface{} {
+			b, e := bip39.GenerateEntropy(bip39.Entropy(128 + 32*c.r.intn(5)))
+			return []interface{}{b, e}
+		})
 	})
 	add("bip39.Mnemonic", func(c *memCtx) {
 		ent := c.bytes("entropy", c.r.bytes([]int{16, 20, 24, 28, 32, 17}[c.r.intn(6)]))
